@@ -90,7 +90,6 @@ func (e *Engine) callFn(c *ctx, x *ssa.Call, idx int, fn *ssa.Function, args []V
 	if pkg == nil && fn.Origin() != nil {
 		pkg = fn.Origin().Pkg
 	}
-	full := fn.String()
 	if pkg == e.P.Pkg {
 		if strings.HasPrefix(name, "v") && len(name) > 1 && name[1] >= 'A' && name[1] <= 'Z' && fn.Signature.Recv() == nil {
 			if r, ok := e.intrinsic(c, x, idx, name, args); ok {
@@ -112,6 +111,7 @@ func (e *Engine) callFn(c *ctx, x *ssa.Call, idx int, fn *ssa.Function, args []V
 	}
 	if !e.ownPkg(pkg) {
 		// external: models and stubs
+		full := fn.String()
 		switch full {
 		case "bytes.Equal":
 			return e.modelBytesEqual(c, x, args)
